@@ -187,7 +187,7 @@ impl Scenario for C08 {
       1 => Gate::SelfWake(rng.range(1, 3) as u8),
       _ => Gate::External,
     };
-    let p = *rng.pick(&[1u32, 3, 10, 10, 1000, 1500]);
+    let p = *rng.pick(&[1u32, 3, 10, 10, 1000, 1500, 0]);
     let src = match rng.below(10) {
       0 | 1 => Src::Interval { p, take: rng.range(1, 6) },
       2 | 3 => Src::IntervalAt { off: *rng.pick(&[-5, 0, 1, 2, 5, 12, 30, 30, 1000, 2500]), p, take: rng.range(1, 5) },
@@ -217,7 +217,7 @@ impl Scenario for C08 {
   fn run(&self, case: &Value) -> Result<Outcome, String> {
     let case: Case = serde_json::from_value(case.clone()).map_err(|e| e.to_string())?;
     match &case.src {
-      Src::Interval { p, take } | Src::IntervalAt { p, take, .. } if *p == 0 || *take == 0 || *take > 20 => return Err("bad interval".into()),
+      Src::Interval { take, .. } | Src::IntervalAt { take, .. } if *take == 0 || *take > 20 => return Err("bad interval".into()),
       Src::Stream { gates } | Src::StreamResult { gates, .. } if gates.len() > 12 => return Err("bad stream".into()),
       _ => {}
     }
